@@ -7,6 +7,7 @@ transcript.  Correspondence: (a) the policy trajectory of a random history of go
 edits and policy assignments in ONE process against the Lean model `trajectory read`; (b) the EDIF
 reference-resolution outcome against the Lean model `resolve` on an independently extracted
 declaration/reference event stream."""
+import gc
 import json
 import os
 import random
@@ -17,6 +18,7 @@ import sys
 import tempfile
 import time
 import traceback
+import warnings
 
 from common import canon, lean, shard
 from common.ctx import stable_hash
@@ -30,6 +32,13 @@ SIG_POLICY = {"edif": "edif.parse.policy_not_restored_on_error",
               "verilog": "verilog.parse.policy_not_restored_on_error"}
 SIG_DESIGN = "edif.design.undeclared_target_accepted"
 SIG_EBLIF_BB = "eblif.parse.blackbox_pins_left_on_removed_cables"
+
+
+def n_fds():
+    try:
+        return len(os.listdir("/proc/self/fd"))
+    except OSError:
+        return -1
 
 
 def family(e):
@@ -93,6 +102,8 @@ def probe(good):
         tr.append([tag, v])
         return v
     rec("default", lambda: nm.default)
+    gc.collect()
+    fd_start = n_fds()
     nl = sdn.Netlist(name="probe")
     rec("netlist.NS", lambda: nl[".NS"])
     lib = nl.create_library(name="lib")
@@ -139,6 +150,11 @@ def probe(good):
         out.append(len(top.children))
         return out
     rec("edit", edit)
+
+    def fds():
+        gc.collect()
+        return n_fds() - fd_start
+    rec("open_files.after_parses", fds)
     rec("orphan.NS", lambda: sdn.Instance()[".NS"])
     rec("default.end", lambda: nm.default)
     return tr
@@ -274,21 +290,30 @@ def attempt_body(fmt, path, policy0, good, fresh):
     nm.default = policy0
     t0 = time.time()
     res = {}
-    try:
-        nl = sdn.parse(path)
-        res["outcome"] = "ok"
-        res["wf_bb"], res["wf"] = wf_report(nl, fmt)
-        res["has_top"] = nl.top_instance is not None
-        if fmt == "edif":
-            try:
-                from engines import io_engine_resolve
-                res["refs"] = io_engine_resolve.impl_refs(nl)
-            except Exception:  # noqa
-                res["refs"] = None
-        res["size"] = sum(len(l.definitions) for l in nl.libraries)
-    except Exception as e:  # noqa
-        res["outcome"] = "raise"
-        res["family"] = family(e)
+    gc.collect()
+    fd0 = n_fds()
+    with warnings.catch_warnings(record=True) as wl:
+        warnings.simplefilter("always")
+        try:
+            nl = sdn.parse(path)
+            res["outcome"] = "ok"
+            res["wf_bb"], res["wf"] = wf_report(nl, fmt)
+            res["has_top"] = nl.top_instance is not None
+            if fmt == "edif":
+                try:
+                    from engines import io_engine_resolve
+                    res["refs"] = io_engine_resolve.impl_refs(nl)
+                except Exception:  # noqa
+                    res["refs"] = None
+            res["size"] = sum(len(l.definitions) for l in nl.libraries)
+        except Exception as e:  # noqa
+            res["outcome"] = "raise"
+            res["family"] = family(e)
+        nl = None
+        gc.collect()
+    # open streams the call left behind once nothing refers to its objects any more
+    res["fd_delta"] = n_fds() - fd0
+    res["resource_warnings"] = sum(1 for w in wl if issubclass(w.category, ResourceWarning))
     res["ms"] = int((time.time() - t0) * 1000)
     res["policy_after"] = nm.default
     if fresh is not None:
@@ -351,6 +376,11 @@ def judge_attempt(sr, inp, res):
                             "unsupported construct %s was accepted" % c["with"])
         if kind == "none" and not res.get("has_top", True) and fmt != "eblif":
             pass
+    if res.get("fd_delta", 0) > 0:
+        sr.spec_failure("%s.parse.leaves_file_open" % fmt, brief,
+                        "%d more open file descriptor(s) after the call than before it (after gc.collect())" % res["fd_delta"])
+    if res.get("resource_warnings"):
+        sr.dist("%s.observation.unclosed_stream_until_gc" % fmt)
     if res["policy_after"] != inp["policy0"]:
         if out == "raise" and fmt in SIG_POLICY:
             sig = SIG_POLICY[fmt]
@@ -623,8 +653,25 @@ def shard_worker(jobs, deadline, shard_id):
     return sr
 
 
+def check_readonly_assumption(ctx, repo):
+    """the model types the EBLIF parse body as policy-read-only (ModelRead.ROBody): re-check the
+    syntactic fact it rests on"""
+    bad = []
+    for fn in ("eblif_parser.py", "eblif_tokenizer.py", "eblif_tokens.py"):
+        p = os.path.join(repo, "spydrnet", "parsers", "eblif", fn)
+        try:
+            with open(p) as f:
+                src = f.read()
+        except OSError:
+            continue
+        if "namespace_manager" in src or "NamespaceManager" in src:
+            bad.append(fn)
+    ctx.obligation("modelling assumption ReadOnly: the EBLIF reader's source never names namespace_manager", not bad, ", ".join(bad))
+
+
 def run(ctx):
     from common.ctx import REPO
+    check_readonly_assumption(ctx, REPO)
     rng = ctx.rng("c15")
     jobs = []
     # 1. corpus / replay
